@@ -564,6 +564,7 @@ func (vc *VC) subRef(st *State, ref *Term, stT types.Type, idx int) *Term {
 		vc.assumeGlobal(p.Lt(r, p.Int(0)))
 		vc.assumeGlobal(p.Eq(p.App("par$"+name, SInt, r), ref))
 		vc.assumeGlobal(p.Eq(p.App("refkind", SInt, r), p.Int(int64(id))))
+		vc.assumeGlobal(p.Eq(p.App("rootof", SInt, r), p.Ite(p.Le(p.Int(0), ref), ref, p.App("rootof", SInt, ref))))
 	}
 	return r
 }
@@ -578,6 +579,7 @@ func (vc *VC) elemRef(st *State, arr, idx *Term, et types.Type) *Term {
 		vc.assumeGlobal(p.Lt(r, p.Int(0)))
 		vc.assumeGlobal(p.Eq(p.App("par$"+name, SInt, r), arr))
 		vc.assumeGlobal(p.Eq(p.App("idx$"+name, SInt, r), idx))
+		vc.assumeGlobal(p.Eq(p.App("rootof", SInt, r), p.Ite(p.Le(p.Int(0), arr), arr, p.App("rootof", SInt, arr))))
 		vc.assumeGlobal(p.Eq(p.App("refkind", SInt, r), p.Int(int64(vc.E.kindID(name)))))
 	}
 	return r
